@@ -53,6 +53,8 @@ def initial_state(ex: Exec, c: Contract, fs):
 def generate(c: Contract) -> Generated:
     g = Generated(c)
     t0 = time.time()
+    if c.trusted and c.target.startswith("extern::"):
+        return g            # external contract: nothing to extract, nothing verified (listed as trusted)
     try:
         fs = source.load(c.target, c.client_src)
     except (LookupError, SyntaxError) as e:
